@@ -497,8 +497,18 @@ impl<F: Write + Seek> Directory<F> {
     where
         W: FnOnce(&mut DirEntry),
     {
-        func(&mut self.dir_entries[stream_id as usize]);
-        self.write_dir_entry(stream_id)
+        // Write the updated entry first: if that fails, the in-memory
+        // directory must not be ahead of the file.
+        let mut dir_entry = self.dir_entries[stream_id as usize].clone();
+        func(&mut dir_entry);
+        let mut chain = self
+            .allocator
+            .open_chain(self.dir_start_sector, SectorInit::Dir)?;
+        let offset = (consts::DIR_ENTRY_LEN as u64) * (stream_id as u64);
+        chain.seek(SeekFrom::Start(offset))?;
+        dir_entry.write_to(&mut chain)?;
+        self.dir_entries[stream_id as usize] = dir_entry;
+        Ok(())
     }
 
     /// Calls the given function with a mutable reference to the root directory
